@@ -1,7 +1,9 @@
 """C09 — Literal <-> Python value mapping is faithful and normalisation is idempotent.  DESIGN §6 C09.
 
 Case kinds (one literal / one pair per case; `relit` = Literal(old[, datatype=dt][, lang=l]) made from an existing
-literal, the first branch of Literal.__new__: {"kind": "relit", "old": <lit>, "dt": name|None, "lang": tag?}):
+literal, the first branch of Literal.__new__: {"kind": "relit", "old": <lit>, "dt": name|None, "lang": tag?};
+`eqpy` = lit.eq(plain Python object): {"kind": "eqpy", "a": <lit>, "v": <python value spec>}; a `lex` case or a <lit>
+with "bytes": true offers the same lexical form as UTF-8 bytes):
   {"kind": "lex", "dt": <xsd local name>, "cps": [code points], "intent": "valid"|"mutated"}
   {"kind": "py",  "v": <python value spec>}
   {"kind": "eq",  "a": <lit>, "b": <lit>}      lit = {"dt": name|None, "cps": […], "norm": bool} | {"v": <python value spec>}
@@ -505,6 +507,8 @@ def _mk(litspec):
     s = "".join(chr(c) for c in litspec["cps"])
     if litspec.get("lang"):
         return Literal(s, lang=litspec["lang"])
+    if litspec.get("bytes"):
+        s = s.encode("utf-8")      # the lexical form offered as (UTF-8) bytes
     return Literal(s, datatype=uri(litspec["dt"]), normalize=bool(litspec["norm"]))
 
 
@@ -526,9 +530,12 @@ def run_lex(case):
     valid = px is not None
     stats["lex_valid" if valid else "lex_invalid"] = 1
     modelled = dt in MODELLED and in_fragment(dt, s)
+    arg = s.encode("utf-8", "surrogatepass") if case.get("bytes") else s   # same lexical form, offered as bytes
+    if case.get("bytes"):
+        stats["lex_as_bytes"] = 1
     try:
-        l0 = Literal(s, datatype=u, normalize=False)
-        l1 = Literal(s, datatype=u)
+        l0 = Literal(arg, datatype=u, normalize=False)
+        l1 = Literal(arg, datatype=u)
         n1 = l0.normalize()
         n2 = n1.normalize()
         b1 = Literal(str(l1), datatype=u, normalize=False)
@@ -568,7 +575,7 @@ def run_lex(case):
     if not modelled:
         obs = ["unmodelled"]
         stats["unmodelled"] = 1
-    return {"obs": obs, "viol": viol, "nontrivial": valid, "key": f"lex:{dt}:{s}", "stats": stats}
+    return {"obs": obs, "viol": viol, "nontrivial": valid, "key": f"lex:{dt}:{s}:{int(bool(case.get('bytes')))}", "stats": stats}
 
 
 def run_py(case):
@@ -750,8 +757,88 @@ def run_relit(case):
             "key": "relit:" + repr((case["old"], case.get("dt"), case.get("lang"))), "stats": stats}
 
 
+def pyspec_of(v):
+    """python value -> value spec (None if it has none)"""
+    if type(v) is bool:
+        return {"t": "bool", "v": int(v)}
+    if type(v) is int:
+        return {"t": "int", "v": str(v)} if abs(v) < 10 ** 200 else None
+    if type(v) is float:
+        return {"t": "float", "hex": "nan" if v != v else ("inf" if v == float("inf") else "-inf" if v == float("-inf") else v.hex())}
+    if isinstance(v, Decimal):
+        if not v.is_finite():
+            return None
+        sg, dg, ex = v.as_tuple()
+        return {"t": "dec", "s": sg, "c": "".join(map(str, dg)), "e": ex} if len(dg) < 300 else None
+    if type(v) is str:
+        return {"t": "str", "cps": [ord(c) for c in v]}
+    if type(v) is datetime:
+        return {"t": "datetime", "f": [v.year, v.month, v.day, v.hour, v.minute, v.second, v.microsecond], "tz": _off(v), "fold": v.fold}
+    if type(v) is date:
+        return {"t": "date", "f": [v.year, v.month, v.day]}
+    if type(v) is time:
+        return {"t": "time", "f": [v.hour, v.minute, v.second, v.microsecond], "tz": _off(v), "fold": v.fold}
+    if type(v) is timedelta:
+        return {"t": "td", "us": str((v.days * 86400 + v.seconds) * 10 ** 6 + v.microseconds)}
+    if type(v) is Duration and v.years == int(v.years) and v.months == int(v.months):
+        td = v.tdelta
+        return {"t": "dur", "y": int(v.years), "m": int(v.months), "us": str((td.days * 86400 + td.seconds) * 10 ** 6 + td.microseconds)}
+    return None
+
+
+def _eqpy_domain(dt, v):
+    """the Python objects Literal.eq documents for a literal of datatype `dt` (None = plain)"""
+    if type(v) is str:
+        return dt is None or dt == "string"
+    if type(v) is bool:
+        return dt == "boolean"
+    if type(v) in (int, float) or isinstance(v, Decimal):
+        return dt in NUMERIC
+    if type(v) in (date, time, datetime):
+        return dt in DATEY
+    if type(v) in (timedelta, Duration):
+        return dt in DURS
+    return False
+
+
+def run_eqpy(case):
+    """lit.eq(v) for a plain Python object v: agrees with Python equality of the mapped value"""
+    viol, stats = [], {"eqpy": 1, "eqpy_" + case["v"]["t"]: 1}
+    modelled = _lit_modelled(case["a"]) and py_modelled(case["v"]) and case["v"]["t"] != "float"
+    try:
+        a = _mk(case["a"])
+        v = py_value(case["v"])
+    except Exception:  # noqa: BLE001
+        return {"obs": ["eqpy|raise"] if modelled else ["unmodelled"], "viol": [], "nontrivial": False, "key": "eqpy-raise",
+                "stats": {"eqpy": 1, "eqpy_ctor_raise": 1}}
+    try:
+        r = a.eq(v)
+        res = "1" if r is True else "0" if r is False else "NotImplemented" if r is NotImplemented else "other"
+    except Exception as e:  # noqa: BLE001
+        r, res = None, "raise:" + type(e).__name__
+    obs = [f"eqpy|{res}"]
+    dt = None if a.datatype is None else local(a.datatype)
+    indom = (_eqpy_domain(dt, v) and a.language is None and a.value is not None and a.ill_typed is not True)
+    stats["eqpy_in_domain"] = int(indom)
+    stats["eqpy_res_" + res.split(":")[0]] = 1
+    if indom:
+        try:
+            want = bool(a.value == v)
+        except Exception:  # noqa: BLE001
+            want = None
+        if want is not None and r is not want:
+            viol.append(f"eqpy: {a!r}.eq({v!r}) is {res} but the mapped value {a.value!r} == {v!r} is {want}")
+    if not modelled:
+        obs = ["unmodelled"]
+        stats["unmodelled"] = 1
+    return {"obs": obs, "viol": viol, "nontrivial": indom, "key": "eqpy:" + repr((case["a"], sorted(case["v"].items(), key=str))),
+            "stats": stats}
+
+
 def run_impl(case):
     k = case["kind"]
+    if k == "eqpy":
+        return run_eqpy(case)
     if k == "lex":
         return run_lex(case)
     if k == "py":
@@ -781,6 +868,10 @@ def model_lines(case):
         if not py_modelled(case["v"]):
             return pre + ["skip"]
         return pre + ["py " + py_model_words(case["v"])]
+    if k == "eqpy":
+        if not (_lit_modelled(case["a"]) and py_modelled(case["v"])) or case["v"]["t"] == "float":
+            return pre + ["skip"]
+        return pre + ["eqpy " + _lit_words(case["a"]) + " " + py_model_words(case["v"])]
     if k == "relit":
         if case["old"].get("lang") or case.get("lang") or not _lit_modelled(case["old"]) or \
                 (case.get("dt") and case["dt"] not in MODELLED):
@@ -1110,7 +1201,7 @@ def _lit_for_eq(rng, fam):
         return rng.choice([{"dt": "boolean", "cps": [ord(c) for c in rng.choice(["true", "false", "1", "0", "TRUE", "x"])], "norm": rng.random() < 0.5},
                            {"v": {"t": "bool", "v": rng.randint(0, 1)}}])
     if fam in DURS:
-        s = rng.choice(["P1D", "PT24H", "PT1440M", "PT86400S", "P1Y", "P12M", "P0Y", "PT0S", "P0D", "-P1D", "-PT24H", "P1Y1D", "P12M1D", "PT0.5S", "PT0.500S", "P1M", "P30D", "x"])
+        s = rng.choice(["P1D", "PT24H", "PT1440M", "PT86400S", "P1Y", "P12M", "P0Y", "PT0S", "P0D", "-P1D", "-PT24H", "P1Y1D", "P12M1D", "PT0.5S", "PT0.500S", "P1M", "P30D", "P1Y2M", "P14M", "x"])
         return {"dt": fam, "cps": [ord(c) for c in s], "norm": rng.random() < 0.5}
     if fam == "date":
         s = rng.choice(["2000-01-01", "2000-01-02", "2000-01-01Z", "2000-01-01+01:00", "0001-01-01", "0000-01-01", "x"])
@@ -1171,6 +1262,51 @@ def gen_relit(rng):
     return {"kind": "relit", "old": {"dt": d1, "cps": [ord(c) for c in s], "norm": rng.random() < 0.5}, "dt": d2}
 
 
+_EQPY_FAMS = ["numeric", "numeric", "numeric", "string", "boolean", "duration", "dayTimeDuration", "yearMonthDuration",
+              "date", "time", "dateTime", "hexBinary", "float", "token"]
+
+
+def gen_eqpy(rng):
+    """a literal of every family and a plain Python object: the value it maps to, a neighbour, or another kind"""
+    fam = rng.choice(_EQPY_FAMS)
+    q = rng.random()
+    if q < 0.55:
+        a = _lit_for_eq(rng, fam)
+    elif q < 0.8:
+        dt = {"numeric": rng.choice(list(INT_BOUNDS) + ["decimal", "decimal"]), "float": rng.choice(["double", "float"])}.get(fam, fam)
+        a = {"dt": dt, "cps": [ord(c) for c in re.sub(r"([eE][+-]?[0-9]{3})[0-9]+", r"\1", gen_valid(rng, dt))], "norm": rng.random() < 0.5}
+    else:
+        a = {"v": gen_pyspec(rng, bytes_ok=False)}
+    vs = None
+    r = rng.random()
+    if r < 0.6:
+        try:
+            vs = pyspec_of(_mk(a).value)        # the value the literal itself maps to
+        except Exception:  # noqa: BLE001
+            vs = None
+        if vs is not None and rng.random() < 0.3:   # ... or a neighbour of it
+            if vs["t"] == "int":
+                vs = rng.choice([{"t": "int", "v": str(int(vs["v"]) + 1)}, {"t": "dec", "s": int(int(vs["v"]) < 0), "c": str(abs(int(vs["v"]))) + "0", "e": -1},
+                                 {"t": "float", "hex": float(int(vs["v"])).hex()} if abs(int(vs["v"])) < 2 ** 53 else vs])
+            elif vs["t"] == "dec":
+                vs = rng.choice([{**vs, "e": vs["e"] + 1}, {**vs, "c": vs["c"] + "0", "e": vs["e"] - 1}, {**vs, "s": 1 - vs["s"]}])
+            elif vs["t"] == "bool":
+                vs = {"t": "bool", "v": 1 - vs["v"]}
+            elif vs["t"] == "td":
+                vs = rng.choice([{"t": "td", "us": str(int(vs["us"]) + 1)}, {"t": "dur", "y": 0, "m": 0, "us": vs["us"]}])
+            elif vs["t"] == "dur":
+                vs = rng.choice([{**vs, "m": (vs["m"] + 1) % 12}, {**vs, "y": vs["y"] + 1, "m": vs["m"]}])
+            elif vs["t"] == "date":
+                vs = rng.choice([{"t": "date", "f": vs["f"][:2] + [vs["f"][2] % 28 + 1]}, {"t": "datetime", "f": vs["f"] + [0, 0, 0, 0], "tz": None, "fold": 0}])
+            elif vs["t"] in ("time", "datetime"):
+                vs = rng.choice([{**vs, "tz": None if vs["tz"] is not None else 0}, {**vs, "f": vs["f"][:-1] + [(vs["f"][-1] + 1) % 10 ** 6]}])
+            elif vs["t"] == "str":
+                vs = {"t": "str", "cps": vs["cps"] + [120]}
+    if vs is None:
+        vs = gen_pyspec(rng, bytes_ok=False)
+    return {"kind": "eqpy", "a": a, "v": vs}
+
+
 def gen_case(rng, tier, i):
     r = rng.random()
     if r < 0.6:
@@ -1183,11 +1319,16 @@ def gen_case(rng, tier, i):
                 s = mutate(rng, dt, s)
         # "1e9999999"^^xsd:decimal (not a valid form) makes rdflib's normalisation format gigabytes of zeros
         s = re.sub(r"([eE][+-]?[0-9]{3})[0-9]+", r"\1", s)
-        return {"kind": "lex", "dt": dt, "cps": [ord(c) for c in s], "intent": intent}
+        c = {"kind": "lex", "dt": dt, "cps": [ord(c) for c in s], "intent": intent}
+        if rng.random() < 0.25 and not any(0xD800 <= ord(ch) <= 0xDFFF for ch in s):
+            c["bytes"] = True
+        return c
     if r < 0.83:
         return {"kind": "py", "v": gen_pyspec(rng)}
     if r < 0.9:
         return gen_relit(rng)
+    if r < 0.95:
+        return gen_eqpy(rng)
     fam = rng.choice(["numeric", "numeric", "numeric", "string", "boolean", "duration", "dayTimeDuration", "date", "time", "dateTime", "hexBinary",
                       "float", "token", "normalizedString"])
     a = _lit_for_eq(rng, fam)
@@ -1240,6 +1381,11 @@ def shrink(case):
                 yield {**case, "v": {**sp, "c": "1"}}
             if sp["e"]:
                 yield {**case, "v": {**sp, "e": sp["e"] // 2}}
+    elif k == "eqpy":
+        ls = case["a"]
+        if "cps" in ls:
+            for i in range(len(ls["cps"])):
+                yield {**case, "a": {**ls, "cps": ls["cps"][:i] + ls["cps"][i + 1:]}}
     elif k == "relit":
         ls = case["old"]
         if "cps" in ls:
